@@ -5,7 +5,7 @@ from vlib import strat as S, oracles as O, groups as GR, hkl as HK
 
 ID = "C06"
 SWITCH_OFF = 6        # every 6th case runs with xfab.CHECKS switched off (results must not depend on it)
-RULE = ("same case space as C05 (one unit per setting, conforming cell, gap-constructed shell, name/number, tools/laue), "
+RULE = ("same case space as C05 incl. needle/plate cells, shells of up to 40000 lattice points and integer-typed cells (one unit per setting, conforming cell, gap-constructed shell, name/number, tools/laue), "
         "output_stl True and False. Oracle: Laue orbits {+-hR} from the exact integer rotations, brute-force lattice "
         "enumeration with operator extinction, metric-tensor sin(theta)/lambda; boundary semantics by re-calling with "
         "smax / smin equal to a returned row's own sintl. Non-trivial = at least one family with more than two members and "
